@@ -15,7 +15,7 @@ INV = ["AnalyzerCounts", "DatasetUntouched", "HistoryIndependence", "OneFrameSce
 
 
 def o(x, y, label, conf=100, pts=5):
-    return '[x |-> %d, y |-> %d, label |-> "%s", conf |-> %d, attr |-> FALSE, pts |-> %d, uuid |-> FALSE]' % (x, y, label, conf, pts)
+    return '[x |-> %d, y |-> %d, label |-> "%s", conf |-> %d, attr |-> 0, pts |-> %d, uuid |-> FALSE]' % (x, y, label, conf, pts)
 
 
 def worlds(tier):
@@ -92,15 +92,14 @@ def replay(arg):
     return 1, mism
 
 
-def run(ctx: Ctx):
-    maxcalls = 2 if ctx.quick else 3
+def replay_worlds(ctx: Ctx, maxcalls, want=lambda clause: True, tag=""):
     for name, w in worlds(ctx.tier).items():
         consts = dict(w, MaxN="3", LcmN="6", MaxCalls=str(maxcalls), AsBuiltAliasedGT="FALSE", PoolN="9", PoolL="2520")
-        res = T.run_model("MC_ManagerHist", "MCMH_%s" % name, consts, init="HInit", next="HNext", invariants=INV, properties=["InputsOnlyChangeAtBegin"], model_values=(),
+        res = T.run_model("MC_ManagerHist", "MCMH_%s%s" % (tag, name), consts, init="HInit", next="HNext", invariants=INV, properties=["InputsOnlyChangeAtBegin"], model_values=(),
                           tlc_kwargs=dict(dump=True, allow_violation=False, timeout=3000))
         ctx.add_tlc(res, "MC_ManagerHist/%s depth %d" % (name, maxcalls), must_take=["BeginAdd", "Step", "Commit"])
         # the as-built aliasing of the shared ground-truth object must be FOUND by TLC (vacuity check of DatasetUntouched)
-        bad = T.run_model("MC_ManagerHist", "MCMH_%s_asbuilt" % name, dict(consts, AsBuiltAliasedGT="TRUE", MaxCalls="2"), init="HInit", next="HNext",
+        bad = T.run_model("MC_ManagerHist", "MCMH_%s%s_asbuilt" % (tag, name), dict(consts, AsBuiltAliasedGT="TRUE", MaxCalls="2"), init="HInit", next="HNext",
                           invariants=["DatasetUntouched", "HistoryIndependence"], model_values=(), tlc_kwargs=dict(timeout=1200))
         if not bad.violated:
             raise T.TlcError("vacuity: TLC does not find the aliasing counterexample in %s" % name)
@@ -126,11 +125,16 @@ def run(ctx: Ctx):
             if len(calls) >= 2 and len({c["i"] for c in calls}) < len(calls):
                 ctx.nontriv(json.dumps([name, [[c["i"], c["ev"], c["cv"]] for c in calls]]))
             for clause, msg, rep in mism:
-                ctx.violation(clause, msg, rep)
+                if want(clause):
+                    ctx.violation(clause, msg, rep)
         ctx.log("replayed %s: %d histories" % (name, len(jobs)))
         j = jobs[len(jobs) * 2 // 3]
         ctx.sample({"world": name, "calls(frame, estimates, critical filter)": [[c["i"], c["ev"], c["cv"]] for c in j[1]], "spec_scene_ap": j[2],
                     "spec_last_result": {k: j[1][-1][k] for k in ("rs2", "g2", "tp", "fp", "fn", "tn")}}, limit=3)
+
+
+def run(ctx: Ctx):
+    replay_worlds(ctx, 2 if ctx.quick else 3)
     # tracking scores depend on the immediately preceding frame result only (and the scene pools all frames)
     from . import tracking_manager
 
